@@ -88,7 +88,8 @@ theorem C03_expressible_built (v : Nat) (tracing : Bool) (stream now : Int) (g :
         exact this x hx1 hx2
       exact ⟨_, by simp only [wBody]; rw [if_neg this]⟩
   obtain ⟨body, hb⟩ := hbody
-  unfold encodeReq
+  rw [encodeReq_eq0 v tracing stream now g (by rw [← tooManyR_ask now g]; exact expressible_not_tooManyR v _ hx)]
+  unfold encodeReq0
   simp only [hnp, if_false, hb]
   by_cases hsz : (if v > 2 then 9 else 8) + (wPayload (payloadOf g) ++ body).length > maxFrameSize
   · right; rw [if_pos hsz]
@@ -97,7 +98,8 @@ theorem C03_expressible_built (v : Nat) (tracing : Bool) (stream now : Int) (g :
 /-- a frame that is produced never exceeds the protocol's 256 MiB limit -/
 theorem C03_frame_size (v : Nat) (tracing : Bool) (stream now : Int) (g : GReq) (bs : Bytes)
     (he : encodeReq v tracing stream now g = .ok bs) : bs.length ≤ maxFrameSize := by
-  unfold encodeReq at he
+  have he := (encodeReq_ok he).2
+  unfold encodeReq0 at he
   by_cases hnp : (payloadOf g).length > 0 ∧ v < 4
   · simp [hnp] at he
   · simp only [hnp, if_false] at he
@@ -135,18 +137,18 @@ theorem C03_rejected_iff (v : Nat) (tracing : Bool) (stream now : Int) (g : GReq
     (∃ e, encodeReq v tracing stream now g = .error e ∧ e ≠ .frameTooBig) ↔ Rejectable v (ask now g) = true :=
   encodeReq_rejects_iff v tracing stream now g
 
-/-- every rejected request is indeed inexpressible in the version: rejection is never spurious -/
-theorem C03_rejected_inexpressible (v : Nat) (req : Req) (h : Rejectable v req = true) :
+/-- the refusals of the builders proper (before the count checks) are never spurious -/
+theorem rejected0_inexpressible (v : Nat) (req : Req) (h : Rejectable0 v req = true) :
     Expressible v req = false := by
   apply Bool.eq_false_iff.mpr
   intro hE
   cases req with
-  | startup _ => simp [Rejectable] at h
-  | options => simp [Rejectable] at h
-  | authResponse _ => simp [Rejectable] at h
-  | register _ => simp [Rejectable] at h
+  | startup _ => simp [Rejectable0] at h
+  | options => simp [Rejectable0] at h
+  | authResponse _ => simp [Rejectable0] at h
+  | register _ => simp [Rejectable0] at h
   | query s p pl =>
-    simp only [Rejectable, Bool.or_eq_true, Bool.and_eq_true, decide_eq_true_eq] at h
+    simp only [Rejectable0, Bool.or_eq_true, Bool.and_eq_true, decide_eq_true_eq] at h
     simp only [Expressible, Bool.and_eq_true] at hE
     obtain ⟨⟨_, hpl⟩, hp⟩ := hE
     rcases h with ⟨hne, hv⟩ | ⟨⟨hv1, hks⟩, hv5⟩
@@ -156,7 +158,7 @@ theorem C03_rejected_inexpressible (v : Nat) (req : Req) (h : Rejectable v req =
       · cases hq : p.keyspace <;> simp [hq] at hn hks
       · omega
   | prepare s ks pl =>
-    simp only [Rejectable, Bool.or_eq_true, Bool.and_eq_true, decide_eq_true_eq] at h
+    simp only [Rejectable0, Bool.or_eq_true, Bool.and_eq_true, decide_eq_true_eq] at h
     simp only [Expressible, Bool.and_eq_true, Bool.or_eq_true, decide_eq_true_eq] at hE
     obtain ⟨⟨_, hpl⟩, hp⟩ := hE
     rcases h with ⟨hne, hv⟩ | ⟨hks, hv5⟩
@@ -165,7 +167,7 @@ theorem C03_rejected_inexpressible (v : Nat) (req : Req) (h : Rejectable v req =
       · cases hq : ks <;> simp [hq] at hn hks
       · omega
   | execute id p pl =>
-    simp only [Rejectable, Bool.or_eq_true, Bool.and_eq_true, decide_eq_true_eq] at h
+    simp only [Rejectable0, Bool.or_eq_true, Bool.and_eq_true, decide_eq_true_eq] at h
     simp only [Expressible, Bool.and_eq_true] at hE
     obtain ⟨⟨_, hpl⟩, hp⟩ := hE
     rcases h with ⟨hne, hv⟩ | ⟨⟨hv1, hks⟩, hv5⟩
@@ -176,7 +178,7 @@ theorem C03_rejected_inexpressible (v : Nat) (req : Req) (h : Rejectable v req =
       · cases hq : p.keyspace <;> simp [hq] at hn hks
       · omega
   | batch typ stmts cons ser ts ks pl =>
-    simp only [Rejectable, Bool.or_eq_true, Bool.and_eq_true, decide_eq_true_eq, List.any_eq_true] at h
+    simp only [Rejectable0, Bool.or_eq_true, Bool.and_eq_true, decide_eq_true_eq, List.any_eq_true] at h
     simp only [Expressible, Bool.and_eq_true, List.all_eq_true] at hE
     have hpl := hE.1.1.1.2
     have hst := hE.1.1.1.1.1.2
@@ -189,6 +191,18 @@ theorem C03_rejected_inexpressible (v : Nat) (req : Req) (h : Rejectable v req =
         Bool.false_eq_true, or_false] at hv
       have := hv.2 x hx1
       cases hq : x.name <;> simp [hq] at this hx2
+
+
+/-- every rejected request is indeed inexpressible in the version: rejection is never spurious — including
+    the two count refusals (more than 65535 bound values / batch entries) -/
+theorem C03_rejected_inexpressible (v : Nat) (req : Req) (h : Rejectable v req = true) :
+    Expressible v req = false := by
+  simp only [Rejectable, Bool.or_eq_true] at h
+  rcases h with h | h
+  · exact rejected0_inexpressible v req h
+  · apply Bool.eq_false_iff.mpr
+    intro hE
+    rw [expressible_not_tooManyR v req hE] at h; cases h
 
 /-- **C03_inexpressible_rejected_partial.** The property's last sentence ("a request that cannot be
     expressed in the negotiated version is never sent in a malformed form") in the form that holds
@@ -367,49 +381,25 @@ theorem C03_cex_short_wraps (s : Bytes) (h : s.length = 65536) :
   refine ⟨e1, e2, ?_⟩
   simp only [wString, h, e1]
 
-/-- more than 65535 bound values: built without complaint, the count on the wire is n mod 65536 -/
-theorem C03_cex_too_many_values (n : Nat) (hn : 65535 < n) (hn2 : n ≤ 1000000) :
-    Expressible 4 (ask 0 (cexMany n)) = false ∧ Rejectable 4 (ask 0 (cexMany n)) = false ∧
-    ∃ bs, encodeReq 4 false 1 0 (cexMany n) = .ok bs ∧
-      ∀ tr s rest, decodeReq (bs ++ rest) ≠ some ⟨4, tr, s, ask 0 (cexMany n), rest⟩ := by
-  have hx : Expressible 4 (ask 0 (cexMany n)) = false := by
-    have := valuesOk_too_many 4 true (List.replicate n (askVal (⟨[], false, none⟩ : GVal))) (by simp; omega)
-    simp [Expressible, ask, cexMany, askParams, p0, paramsOk, this]
-  have hr : Rejectable 4 (ask 0 (cexMany n)) = false := by
-    simp [Rejectable, ask, cexMany, askParams, p0]
-  refine ⟨hx, hr, ?_⟩
-  rcases C03_gap_malformed 4 false 1 0 (cexMany n) hx hr with h | h
-  · exfalso
-    have hnf : namesFlag 4 (List.replicate n (⟨[], false, none⟩ : GVal)) = false := by
-      cases n with
-      | zero => omega
-      | succ k => simp [List.replicate_succ, namesFlag]
-    have hpos : 0 < n := by omega
-    unfold encodeReq at h
-    simp only [cexMany, payloadOf, wBody, p0] at h
-    simp [wPayload, wQueryParams, wString, wShort, wFlags, maxFrameSize, hnf] at h
-    simp only [hpos, if_true, List.length_cons, many_len] at h
-    omega
-  · exact h
+/-- REGRESSION (KF-C03-5, repaired): more than 65535 bound values — any number, no upper bound — is refused
+    before anything is written; the request is inexpressible and now of the refused kinds. Before the repair
+    the count went out modulo 65536 (this was the counterexample C03_cex_too_many_values). -/
+theorem C03_cex_too_many_values (n : Nat) (hn : 65535 < n) (v : Nat) (tracing : Bool) (stream : Int) :
+    Expressible v (ask 0 (cexMany n)) = false ∧ Rejectable v (ask 0 (cexMany n)) = true ∧
+    encodeReq v tracing stream 0 (cexMany n) = .error .tooMany := by
+  have ht : tooManyG (cexMany n) = true := by simp [tooManyG, cexMany, p0]; omega
+  have hr : Rejectable v (ask 0 (cexMany n)) = true := by
+    simp only [Rejectable, tooManyR_ask, ht, Bool.or_true]
+  exact ⟨C03_rejected_inexpressible v _ hr, hr, by simp [encodeReq, ht]⟩
 
-/-- more than 65535 batch entries: the same -/
-theorem C03_cex_too_many_batch_entries (n : Nat) (hn : 65535 < n) (hn2 : n ≤ 1000000) :
-    Expressible 4 (ask 0 (cexManyStmts n)) = false ∧ Rejectable 4 (ask 0 (cexManyStmts n)) = false ∧
-    ∃ bs, encodeReq 4 false 1 0 (cexManyStmts n) = .ok bs ∧
-      ∀ tr s rest, decodeReq (bs ++ rest) ≠ some ⟨4, tr, s, ask 0 (cexManyStmts n), rest⟩ := by
-  have hx : Expressible 4 (ask 0 (cexManyStmts n)) = false := by
-    have : ¬ n ≤ 65535 := by omega
-    simp [Expressible, ask, cexManyStmts, this]
-  have hr : Rejectable 4 (ask 0 (cexManyStmts n)) = false := by
-    simp [Rejectable, ask, cexManyStmts, askStmt, bstmtVals]
-  refine ⟨hx, hr, ?_⟩
-  rcases C03_gap_malformed 4 false 1 0 (cexManyStmts n) hx hr with h | h
-  · exfalso
-    unfold encodeReq at h
-    simp only [cexManyStmts, payloadOf, wBody] at h
-    simp [wPayload, wBatchBody, wShort, wFlags, maxFrameSize, batchFlags, b2n, wStmt, wLongString, wInt, wUInt] at h
-    omega
-  · exact h
+/-- REGRESSION (KF-C03-6, repaired): more than 65535 batch entries — likewise refused -/
+theorem C03_cex_too_many_batch_entries (n : Nat) (hn : 65535 < n) (v : Nat) (tracing : Bool) (stream : Int) :
+    Expressible v (ask 0 (cexManyStmts n)) = false ∧ Rejectable v (ask 0 (cexManyStmts n)) = true ∧
+    encodeReq v tracing stream 0 (cexManyStmts n) = .error .tooMany := by
+  have ht : tooManyG (cexManyStmts n) = true := by simp [tooManyG, cexManyStmts]; omega
+  have hr : Rejectable v (ask 0 (cexManyStmts n)) = true := by
+    simp only [Rejectable, tooManyR_ask, ht, Bool.or_true]
+  exact ⟨C03_rejected_inexpressible v _ hr, hr, by simp [encodeReq, ht]⟩
 
 /-- a prepared id (any `[short bytes]` / `[string]`: keyspace, value name, event, option) longer
     than 65535 bytes: all bytes are written behind a length that says `len mod 65536` -/
@@ -421,11 +411,12 @@ theorem C03_cex_short_string_too_long (id : Bytes) (hn : 65535 < id.length) (hn2
     have : ¬ id.length ≤ 65535 := by omega
     simp [Expressible, ask, cexLongId, fitsShort, this]
   have hr : Rejectable 4 (ask 0 (cexLongId id)) = false := by
-    simp [Rejectable, ask, cexLongId, askParams, p0]
+    simp [Rejectable, Rejectable0, tooManyR, ask, cexLongId, askParams, p0]
   refine ⟨hx, hr, ?_⟩
   rcases C03_gap_malformed 4 false 1 0 (cexLongId id) hx hr with h | h
   · exfalso
-    unfold encodeReq at h
+    rw [encodeReq_eq0 4 false 1 0 _ (by simp [tooManyG, cexLongId, p0])] at h
+    unfold encodeReq0 at h
     simp only [cexLongId, payloadOf, wBody, p0] at h
     simp [wPayload, wQueryParams, wString, wShort, wFlags, maxFrameSize, queryFlags, namesFlag, b2n] at h
     omega
